@@ -64,7 +64,9 @@ pub fn run_widths(cases_path: &str, report_path: &str, opts: &[String]) {
         if arr.len() >= 2 {
             rep.nontrivial += 1;
         }
-        let offsets: Vec<u64> = if all { vec![0, 300, 65520] } else { vec![[0u64, 300, 65520][ci % 3]] };
+        // the last offset puts the model's highest code on the highest CID, 65535
+        let top = 65535 - (ideal.len() as u64 - 3);
+        let offsets: Vec<u64> = if all { vec![0, 300, 65520, top] } else { vec![[0u64, 300, 65520, top][ci % 4]] };
         for off in offsets {
             for by_ref in [false, true] {
                 if by_ref && !all && ci % 2 == 0 {
